@@ -32,6 +32,7 @@ type Env struct {
 	nq       int
 	acqMode  bool
 	which    *State // state selected by the innermost old()/acq()
+	boundNames map[string]bool // names of the SMT constants bound by enclosing quantifiers
 }
 
 type cevalError struct{ msg string }
@@ -91,7 +92,8 @@ func (env *Env) cur(st *State) *State {
 // quantifiers) also record the well-typedness of what was read.
 func (env *Env) load(st *State, blk, off *Term, t types.Type) Value {
 	val := env.cur(st).loadAtRaw(blk, off, t)
-	if env.nq == 0 {
+	if env.nq == 0 || !(hasBound(blk, env.boundNames) || hasBound(off, env.boundNames)) {
+		// ground reads (also inside quantifiers) record the well-typedness of what was read
 		st.assumeWF(val)
 	}
 	return val
@@ -173,7 +175,7 @@ func (env *Env) eval(st *State, e CExpr) Value {
 		switch t := x.T.Underlying().(type) {
 		case *types.Slice:
 			es := v.e.lay.Size(t.Elem())
-			return env.load(st, x.L[0], Add(x.L[1], Mul(i.L[0], IntLit(int64(es)))), t.Elem())
+			return env.load(st, x.L[0], Add(x.L[1], strideOf(i.L[0], int64(es))), t.Elem())
 		case *types.Map:
 			val, _ := v.mapGet(env.cur(st), t, x.L[0], i, true)
 			return val
@@ -189,7 +191,7 @@ func (env *Env) eval(st *State, e CExpr) Value {
 		case *types.Pointer:
 			if at, ok := t.Elem().Underlying().(*types.Array); ok {
 				es := v.e.lay.Size(at.Elem())
-				return env.load(st, x.L[0], Add(x.L[1], Mul(i.L[0], IntLit(int64(es)))), at.Elem())
+				return env.load(st, x.L[0], Add(x.L[1], strideOf(i.L[0], int64(es))), at.Elem())
 			}
 		}
 		env.fail("cannot index %v", x.T)
@@ -208,12 +210,16 @@ func (env *Env) eval(st *State, e CExpr) Value {
 		if e.Hi != nil {
 			hi = env.eval(st, e.Hi).L[0]
 		}
-		return Value{T: x.T, L: []*Term{x.L[0], Add(x.L[1], Mul(lo, IntLit(int64(es)))), Sub(hi, lo), Sub(x.L[3], lo)}}
+		return Value{T: x.T, L: []*Term{x.L[0], Add(x.L[1], strideOf(lo, int64(es))), Sub(hi, lo), Sub(x.L[3], lo)}}
 	case CCall:
 		return env.call(st, e)
 	case CQuant:
 		ne := env.child()
 		ne.nq = env.nq + 1
+		ne.boundNames = map[string]bool{}
+		for k := range env.boundNames {
+			ne.boundNames[k] = true
+		}
 		var bound []*Term
 		for _, p := range e.Vars {
 			t, err := v.e.resolveType(p.Type, env.pkgPath)
@@ -227,6 +233,7 @@ func (env *Env) eval(st *State, e CExpr) Value {
 				c := &Term{op: "const", name: fmt.Sprintf("%s!q%d_%d", sanitize(p.Name), v.e.sy.n, i), sort: sl.K.Sort()}
 				val.L[i] = c
 				bound = append(bound, c)
+				ne.boundNames[c.name] = true
 			}
 			ne.vars[p.Name] = val
 		}
@@ -661,6 +668,7 @@ type location struct {
 	typ      types.Type
 	size     int
 	whole    bool // the whole block
+	rangeLen *Term // with whole: only offsets [off, off+rangeLen) (nil: every offset)
 	mapType  *types.Map
 	ghostKey string // type key for ghost fields
 	ghostFld string
@@ -688,6 +696,19 @@ func (env *Env) loc(st *State, e CExpr) location {
 	case CSel:
 		x := env.eval(st, e.X)
 		stt, named, ok := env.structOf(x.T)
+		if ok && !isPointerShaped(x.T) {
+			// field of a struct value that is itself a location (embedded struct, nested field)
+			base := env.loc(st, e.X)
+			if bst, isStruct := base.typ.Underlying().(*types.Struct); isStruct && !base.whole && base.ghostKey == "" {
+				for i := 0; i < bst.NumFields(); i++ {
+					if bst.Field(i).Name() == e.Name {
+						ft := bst.Field(i).Type()
+						return location{blk: base.blk, off: Add(base.off, IntLit(int64(v.e.lay.FieldOff(bst, i)))), typ: ft, size: v.e.lay.Size(ft)}
+					}
+				}
+			}
+			env.fail("no field %s in %v", e.Name, base.typ)
+		}
 		if !ok || !isPointerShaped(x.T) {
 			env.fail("lvalue .%s needs a pointer to struct, got %v", e.Name, x.T)
 		}
@@ -716,11 +737,19 @@ func (env *Env) loc(st *State, e CExpr) location {
 		i := env.eval(st, e.I)
 		if t, ok := x.T.Underlying().(*types.Slice); ok {
 			es := v.e.lay.Size(t.Elem())
-			return location{blk: x.L[0], off: Add(x.L[1], Mul(i.L[0], IntLit(int64(es)))), typ: t.Elem(), size: es}
+			return location{blk: x.L[0], off: Add(x.L[1], strideOf(i.L[0], int64(es))), typ: t.Elem(), size: es}
 		}
 	case CCall:
 		switch e.Fun {
+		case "elemrange":
+			// exactly the elements of a slice: offsets [off, off+len*size) of its block
+			x := env.eval(st, e.Args[0])
+			if t, ok := x.T.Underlying().(*types.Slice); ok {
+				es := v.e.lay.Size(t.Elem())
+				return location{blk: x.L[0], off: x.L[1], whole: true, rangeLen: strideOf(x.L[2], int64(es))}
+			}
 		case "elems":
+			// the whole backing block of a slice / the pointee block / a map
 			x := env.eval(st, e.Args[0])
 			switch t := x.T.Underlying().(type) {
 			case *types.Slice, *types.Pointer:
@@ -749,6 +778,8 @@ func (v *Verifier) havocLValue(st *State, env *Env, m CExpr) {
 	switch {
 	case loc.mapType != nil:
 		v.mapHavoc(st, loc.mapType, loc.blk)
+	case loc.whole && loc.rangeLen != nil:
+		st.havocRange(loc.blk, loc.off, loc.rangeLen)
 	case loc.whole:
 		st.havocBlock(loc.blk)
 	case loc.ghostKey != "":
@@ -928,7 +959,7 @@ func (env *Env) call(st *State, e CCall) Value {
 		if len(e.Args) != len(p.Params) {
 			env.fail("%s expects %d arguments", p.Name, len(p.Params))
 		}
-		ne := &Env{v: v, vars: map[string]Value{}, pkgPath: p.PkgPath, old: env.old, inOld: env.inOld, depth: env.depth + 1, nq: env.nq, acqMode: env.acqMode, which: env.which}
+		ne := &Env{v: v, vars: map[string]Value{}, pkgPath: p.PkgPath, old: env.old, inOld: env.inOld, depth: env.depth + 1, nq: env.nq, acqMode: env.acqMode, which: env.which, boundNames: env.boundNames}
 		for i, pa := range p.Params {
 			val := arg(i)
 			if val.T == nilType || val.T == mathInt {
